@@ -161,6 +161,12 @@ def run(pid, spec, tier):
     for name in spec.get("extra", []):
         if name == "quota_frame_scan":
             out.append(quota_frame_scan(pid))
+        elif name == "bounded_encoder_corpus":
+            import bounded_standin
+            out.append(bounded_standin.encoder_corpus(pid))
+        elif name == "bounded_quota_corpus":
+            import bounded_standin
+            out.append(bounded_standin.quota_corpus(pid))
         elif name == "bounded_principal_text":
             import bounded_standin
             out.append(bounded_standin.principal_text(pid))
